@@ -94,7 +94,7 @@ pub open spec fn clone_keeps_mv<T: Message + Clone + PartialEq>() -> bool {
 /// (the same-shape premise is what makes this true for U16/U32, whose `==` ignores the byte order)
 pub open spec fn eq_decides_mv<T: Message + Clone + PartialEq>() -> bool {
     &&& T::obeys_eq_spec()
-    &&& forall|a: T, b: T| #[trigger] a.eq_spec(&b) && same_shape(a.mv(), b.mv()) ==> a.mv() == b.mv()
+    &&& forall|a: T, b: T| #[trigger] a.eq_spec(&b) && (same_shape(a.mv(), b.mv()) || same_shape(b.mv(), a.mv())) ==> a.mv() == b.mv()
 }
 // PROVED for the payload types that occur in /repo (`grep 'Check::new(' /repo/src`: u8, U16, U32, Vec<u8>):
 pub proof fn lemma_payload_u8() ensures clone_keeps_mv::<u8>(), eq_decides_mv::<u8>() {}
